@@ -517,7 +517,20 @@ class Interp(Analyzer):
                 s_ = r[1].single()[0]
                 la_, lb2_ = self.as_int(a, st), self.as_int(b, st)
                 if la_ is not None and lb2_ is not None and s_ not in la_.co and s_ not in lb2_.co and ('#' in s_ or s_.startswith('vn:')):
-                    self.bitdef.setdefault(s_, (base_, la_, lb2_, self.subst_ty(ty, frame)))
+                    ty_ = self.subst_ty(ty, frame)
+                    self.bitdef.setdefault(s_, (base_, la_, lb2_, ty_))
+                    if base_ in ('BitAnd', 'BitOr', 'BitXor', 'Shr', 'Shl') and ty_ in ('u8', 'u16', 'u32'):
+                        # the bit view may know more than the interval view (masking of a partly known byte)
+                        from .bits import BitView, WIDTH
+                        bl_ = BitView(self, st).sym_bits(s_, WIDTH[ty_], 0)
+                        if all(x_ in (0, 1) for x_ in bl_):
+                            return V_const(sum(x_ << k_ for k_, x_ in enumerate(bl_)))
+                        hi_ = sum((0 if x_ == 0 else 1) << k_ for k_, x_ in enumerate(bl_))
+                        lo_ = sum((1 if x_ == 1 else 0) << k_ for k_, x_ in enumerate(bl_))
+                        if st.hi.get(s_) is None or st.hi[s_] > hi_:
+                            st.hi[s_] = hi_
+                        if st.lo.get(s_) is None or st.lo[s_] < lo_:
+                            st.lo[s_] = lo_
         except Exception:
             pass
         # provenance of freshly created symbols (used to classify obligations: which inputs does a value depend on)
@@ -1576,7 +1589,13 @@ class Interp(Analyzer):
         self.loops.setdefault(body.path, set()).update(cfg.loop_heads)
         if frame.depth == 0:
             # the separate states flowing into the return block(s) of an entry (per-path views, e.g. Ok vs Err exits)
-            self.entry_ret_edges = [(u, v, edge[(u, v)]) for (u, v) in sorted(edge) if body.blocks[v].term.k == 'return']
+            self.entry_ret_edges = []
+            for (u, v) in sorted(edge):
+                if body.blocks[v].term.k == 'return' and not body.blocks[v].stmts:
+                    self.entry_ret_edges.append((u, v, edge[(u, v)]))
+            for v in sorted(ret_states):
+                if body.blocks[v].stmts or not any(e[1] == v for e in self.entry_ret_edges):
+                    self.entry_ret_edges.append((v, v, ret_states[v]))
         ret = None
         groups = {}
         for bb in sorted(ret_states):
